@@ -17,6 +17,8 @@ from .values import (
 
 MISSING = None  # set from interp at import time (shared sentinel)
 
+PURE_PATH_FUNCS = {"os.path." + n for n in ("basename", "dirname", "splitext", "split", "join", "normpath", "isabs")}
+
 CLOCKS = {
     "wpilib.Timer.getFPGATimestamp": "s",
     "time.monotonic": "s",
@@ -221,7 +223,7 @@ def make_builtins(interp):
     exc("NotImplementedError", "RuntimeError")
     exc("ModuleNotFoundError", "ImportError")
     exc("UnboundLocalError", "NameError")
-    exc("UserFault", "Exception")  # an arbitrary exception raised by user code
+    exc("UserFault", "BaseException")  # an arbitrary exception raised by user code: the most general kind (only `except:` / `except BaseException` see it)
     exc("GeneratorExit", "BaseException")
     exc("KeyboardInterrupt", "BaseException")
     exc("SystemExit", "BaseException")
@@ -539,8 +541,30 @@ def make_builtins(interp):
     def _(i, a, k, n):
         return Sym(f"id({show(a[0])})", "num")
 
+    def lazy_scan(i, src, n, stop_on):
+        """any()/all() over a generator: consume until the verdict is known, then finalise the temporary generator"""
+        from .interp import GenV, AbsRaise as _AR
+
+        g = i.obj_iter(src, n)
+        if not isinstance(g, GenV):
+            return None
+        while True:
+            try:
+                x = g.next(n)
+            except _AR as ar:
+                if i.is_stop(ar):
+                    return not stop_on
+                raise
+            if i.truth(x, n) is stop_on:
+                if g.state == "suspended":
+                    g.close(n)
+                return stop_on
+
     @reg("any")
     def _(i, a, k, n):
+        r = lazy_scan(i, a[0], n, True)
+        if r is not None:
+            return r
         kind, items = i.iterate(a[0], n)
         if kind != "known":
             raise Unsupported("any() of unknown", n)
@@ -548,6 +572,9 @@ def make_builtins(interp):
 
     @reg("all")
     def _(i, a, k, n):
+        r = lazy_scan(i, a[0], n, False)
+        if r is not None:
+            return r
         kind, items = i.iterate(a[0], n)
         if kind != "known":
             raise Unsupported("all() of unknown", n)
@@ -1274,6 +1301,18 @@ def ext_call(interp, fn, args, kwargs, node):
         s = Sym(f"now{n}", "num", tag=("clock", CLOCKS[path], path))
         interp.emit("clock", path, node=node, extra=s)
         return s
+    if path in PURE_PATH_FUNCS and fn.origin == "lib" and not kwargs and args and all(isinstance(x, str) for x in args):
+        # pure string functions of os.path on concrete arguments are evaluated (POSIX flavour)
+        import posixpath
+
+        r = getattr(posixpath, path.rsplit(".", 1)[1])(*args)
+        return r
+    if path == "sys.exc_info" and fn.origin == "lib":
+        # (type, value, traceback) of the exception being handled
+        if interp.exc_stack:
+            e = interp.exc_stack[-1]
+            return (e.cls if isinstance(e, Obj) else type_of(interp, e), e, Ext("traceback", "lib", role="instance"))
+        return (None, None, None)
     if interp.load_mode:
         return Ext(f"{path}({argrepr(args, kwargs)})", fn.origin, role="loadtime", parent=fn, callargs=(tuple(args), dict(kwargs)))
     if path == "wpilib.Timer" and fn.origin == "lib" and getattr(interp, "model_wpilib_timer", False):
